@@ -246,4 +246,43 @@ theorem fillSample_ne_fuel (t : TinyLFU) (kw : AMap Nat WKey) :
             exact estimateO_ne_fuel _ _ _ heq
           · exact ih _ _
 
+/-! ### `is_space_available_for`: when `max_weight - weight_used` leaves `i64` -/
+
+theorem Adm.spaceOverflow_eq_false_iff (a : Adm) :
+    a.spaceOverflow = false ↔ i64Min ≤ a.max - a.used ∧ a.max - a.used ≤ i64Max := by
+  simp [Adm.spaceOverflow, inI64]
+
+theorem Adm.spaceOverflow_eq_true_iff (a : Adm) :
+    a.spaceOverflow = true ↔ (a.max - a.used < i64Min ∨ i64Max < a.max - a.used) := by
+  simp only [Adm.spaceOverflow, inI64, Bool.not_eq_true', Bool.and_eq_false_iff, decide_eq_false_iff_not]
+  omega
+
+/-- A total that is not negative and a capacity that is an `i64`, with the total within the capacity: the subtraction is
+    representable (it lies in `[0, i64::MAX]`). -/
+theorem Adm.spaceOverflow_false_of_le {a : Adm} (h0 : 0 ≤ a.used) (hle : a.used ≤ a.max) (hm : a.max ≤ i64Max) :
+    a.spaceOverflow = false := by
+  rw [Adm.spaceOverflow_eq_false_iff]
+  simp only [i64Min, i64Max] at *
+  omega
+
+/-- The general form: a non-negative total that is itself an `i64` (it is one, in the code) under a non-negative `i64`
+    capacity — also when `UpdateWeight` has pushed the total above the capacity (known finding D1). -/
+theorem Adm.spaceOverflow_false {a : Adm} (h0 : 0 ≤ a.used) (hu : a.used ≤ i64Max) (hm0 : 0 ≤ a.max)
+    (hm : a.max ≤ i64Max) : a.spaceOverflow = false := by
+  rw [Adm.spaceOverflow_eq_false_iff]
+  simp only [i64Min, i64Max] at *
+  omega
+
+/-- Conversely: under an `i64` capacity that is not negative, and with the total an `i64`, the subtraction overflows only
+    when the total is NEGATIVE. -/
+theorem Adm.neg_of_spaceOverflow {a : Adm} (hov : a.spaceOverflow = true) (hu : a.used ≤ i64Max) (hm0 : 0 ≤ a.max)
+    (hm : a.max ≤ i64Max) : a.used < 0 := by
+  by_cases h0 : 0 ≤ a.used
+  · rw [Adm.spaceOverflow_false h0 hu hm0 hm] at hov; cases hov
+  · omega
+
+@[simp] theorem Adm.delete_spaceOverflow_none {a : Adm} {id : Nat} (h : a.kw.get? id = none) :
+    (a.delete id).1.spaceOverflow = a.spaceOverflow := by
+  simp [Adm.delete, h]
+
 end Cached
